@@ -264,6 +264,34 @@ def _check_file(case):
                     break
             if len(viols) > 2:
                 break
+        # arguments left at their defaults: getFrames(t) / getFrames(startTime=t) read to the end, getFrames(None, t) /
+        # getFrames(endTime=t) from the beginning, getFrames() everything
+        for t0 in T:
+            for how, thunk, lo_t, hi_t in (("getFrames(%r)" % t0, lambda: q.getFrames(t0), t0, None),
+                                           ("getFrames(startTime=%r)" % t0, lambda: q.getFrames(startTime=t0), t0, None),
+                                           ("getFrames(None, %r)" % t0, lambda: q.getFrames(None, t0), None, t0),
+                                           ("getFrames(endTime=%r)" % t0, lambda: q.getFrames(endTime=t0), None, t0),
+                                           ("getSamples(%r, %r)" % (t0, n / rate), lambda: audio.convertToBytes(q.getSamples(t0, n / rate), width), t0, None)):
+                cnt += 1
+                st, fr, _ = call(thunk)
+                if st == "exc":
+                    viols.append(Viol("querywav-default-argument-raised", f"{tag}: QueryWav.{how}: {fr!r}"))
+                    break
+                got = W.unpack(fr, width) if len(fr) % width == 0 else None
+                # the same latitude as for explicit times above (a run from the sample nearest to the start, ending at the sample
+                # nearest to the end or having the nearest-integer length), with the defaulted time being 0 / the duration
+                a_t, b_t = (0.0 if lo_t is None else lo_t), (n / rate if hi_t is None else hi_t)
+                cands = []
+                for i in W.indices(a_t, rate):
+                    for j in W.indices(b_t, rate):
+                        cands.append(s[_clamp(i, n):_clamp(j, n)])
+                    for ln in W.indices(W.F(b_t) - W.F(a_t), rate) + W.indices(b_t - a_t, rate):
+                        cands.append(s[_clamp(i, n):_clamp(i, n) + max(ln, 0)])
+                if got not in cands:
+                    viols.append(Viol("querywav-default-argument", f"{tag}: QueryWav.{how} = {got}, expected {cands[0]}"))
+                    break
+            if len(viols) > 2:
+                break
         try:
             q.audiofile.close()
         except Exception:
